@@ -6,6 +6,12 @@
 //        (Euler<float> and Euler<double> are both run and must agree)
 //   c11_corr anglemod <seed> <n>  structured inputs x for T = double and T = float:
 //        `<d|f> <bits of x> <bits of static_cast<T>(M_PI)> <bits of the float returned by angleMod (x)>`
+//   c11_corr anglemod-float-all <stride> <offset> <threads>
+//        EVERY float bit pattern p ≡ offset (mod stride) (stride 1 = all 2^32), no Lean driver involved: for finite x
+//        r = Euler<float>::angleMod (x) must satisfy |r| ≤ float (M_PI) EXACTLY and r ≡ x modulo 2·float (M_PI) EXACTLY
+//        (fmodl (x, P) − r ∈ {0, ±P} in long double; all three numbers are floats of magnitude < 2P, the difference is exact);
+//        these two conditions determine r up to the choice between +π_f and −π_f.  Also the float neighbours of every
+//        multiple k·π_f, |k| ≤ 4096, are always included.  Prints one `AMALL …` summary line and up to 20 `AMALL-FAIL` lines.
 #include <ImathEuler.h>
 #include <cstdio>
 #include <cstdlib>
@@ -14,6 +20,9 @@
 #include <random>
 #include <string>
 #include <vector>
+#include <thread>
+#include <atomic>
+#include <mutex>
 using namespace IMATH_INTERNAL_NAMESPACE;
 
 template <class T> static std::string orderLine (int p)
@@ -105,6 +114,56 @@ int main (int argc, char** argv)
         amAll<float> (seed, n);
         return 0;
     }
-    fprintf (stderr, "usage: c11_corr order <lo> <hi> | anglemod <seed> <n>\n");
+    if (mode == "anglemod-float-all")
+    {
+        unsigned long stride = strtoul (argv[2], 0, 10), offset = strtoul (argv[3], 0, 10);
+        int           nth    = argc > 4 ? atoi (argv[4]) : 4;
+        if (stride == 0) stride = 1;
+        const float       pif = static_cast<float> (M_PI);
+        const long double P   = 2.0L * (long double) pif;
+        std::atomic<unsigned long long> evals (0), nonfinite (0), bad (0), noWrap (0), plus (0), minus (0), atPi (0);
+        std::mutex                      mu;
+        auto one = [&] (unsigned p, unsigned long long* c) {
+            float x;
+            memcpy (&x, &p, 4);
+            if (!std::isfinite (x)) { ++c[1]; return; }
+            float       r = Euler<float>::angleMod (x);
+            long double a = fmodl ((long double) x, P), d = a - (long double) r;
+            ++c[0];
+            bool ok = std::fabs (r) <= pif && (d == 0 || d == P || d == -P);
+            if (d == 0) ++c[3]; else if (d == -P) ++c[4]; else if (d == P) ++c[5];
+            if (std::fabs (r) == pif) ++c[6];
+            if (!ok)
+            {
+                ++c[2];
+                std::lock_guard<std::mutex> g (mu);
+                static int printed = 0;
+                if (++printed <= 20) printf ("AMALL-FAIL x_bits=%08x x=%.9g r_bits=%08x r=%.9g fmodl=%.21Lg\n", p, (double) x, bitsOf (r), (double) r, a);
+            }
+        };
+        std::vector<std::thread> th;
+        for (int t = 0; t < nth; ++t)
+            th.emplace_back ([&, t] {
+                unsigned long long c[7] = {0, 0, 0, 0, 0, 0, 0};
+                // thread t handles the indices i ≡ t (mod nth) of the arithmetic progression offset + i·stride
+                for (unsigned long long p = offset + (unsigned long long) t * stride; p < (1ull << 32); p += (unsigned long long) nth * stride) one ((unsigned) p, c);
+                evals += c[0]; nonfinite += c[1]; bad += c[2]; noWrap += c[3]; plus += c[4]; minus += c[5]; atPi += c[6];
+            });
+        for (auto& t : th) t.join ();
+        // neighbours of k·π_f (the only places where a boundary slip `<` ↔ `<=` can show)
+        unsigned long long c[7] = {0, 0, 0, 0, 0, 0, 0};
+        for (int k = -4096; k <= 4096; ++k)
+        {
+            float b = (float) ((double) k * (double) pif), lo = b, hi = b;
+            one (bitsOf (b), c);
+            for (int s = 0; s < 4; ++s) { lo = std::nextafter (lo, -INFINITY); hi = std::nextafter (hi, INFINITY); one (bitsOf (lo), c); one (bitsOf (hi), c); }
+        }
+        evals += c[0]; bad += c[2]; noWrap += c[3]; plus += c[4]; minus += c[5]; atPi += c[6];
+        printf ("AMALL evals=%llu nonfinite=%llu failures=%llu no_wrap=%llu plus_2pi=%llu minus_2pi=%llu result_at_pm_pi=%llu stride=%lu\n",
+                (unsigned long long) evals, (unsigned long long) nonfinite, (unsigned long long) bad, (unsigned long long) noWrap,
+                (unsigned long long) plus, (unsigned long long) minus, (unsigned long long) atPi, stride);
+        return bad ? 1 : 0;
+    }
+    fprintf (stderr, "usage: c11_corr order <lo> <hi> | anglemod <seed> <n> | anglemod-float-all <stride> <offset> <threads>\n");
     return 2;
 }
